@@ -10,6 +10,10 @@ import (
 type Function struct {
 	name         string
 	logicHandler r.FuncExecutor
+	// module - the module whose code defines this function (nil for native functions).
+	// A function is a value: it can be bound to another name or passed around, and it must
+	// still run - and be reported - in the module it was written in.
+	module *r.Module
 }
 
 func NewFunction(executor r.FuncExecutor) *Function {
@@ -24,6 +28,17 @@ func (fn *Function) String() string {
 		return "‹某方法›"
 	}
 	return fmt.Sprintf("‹方法·%s›", fn.name)
+}
+
+// SetModule - remember the module that defines this function
+func (fn *Function) SetModule(module *r.Module) *Function {
+	fn.module = module
+	return fn
+}
+
+// GetModule - the module that defines this function (nil for native functions)
+func (fn *Function) GetModule() *r.Module {
+	return fn.module
 }
 
 func (fn *Function) SetName(name string) *Function {
